@@ -15,6 +15,7 @@ import Props.Lemmas.C08_Parse
 import Props.Lemmas.C08_Model
 import Props.Lemmas.C08_Aux
 import Props.Lemmas.C08_PreFix
+import Props.Lemmas.C08_Session
 
 namespace Pypyr.C08
 open Pypyr.Format
@@ -481,5 +482,104 @@ example : Format.fmtVal 8 exCtx (.str "ok {b} then {zz} and {a}") = .error (keyN
     Format.fmtVal 8 (("r", .str "{zz}") :: exCtx) (.str "{r}") = .error (keyNotInContext "zz") ∧
     Format.fmtVal 8 exCtx (.str "{zz[0]!r:>{b}}") = .error (keyNotInContext "zz") := by
   refine ⟨by rfl, by rfl, by rfl⟩
+
+/-! ## `!py` with assignment expressions, and sessions of calls on one context
+
+`PypyrModel/FormatSession.lean`: `evalPyW` is `evalPy` plus `(x := a)`; every evaluation
+(`getEvalString`) starts with nothing bound, binds into its own scratch and drops it.
+`runCalls` is a sequence of formatting calls and context updates on one context. -/
+
+/-- Conservative extension: a `!py` expression without an assignment expression evaluates, as a
+    top-level call of a session, to exactly what `py_evaluates` says it does inside a formatted
+    value. For every context and expression. -/
+theorem py_call_agrees_with_py_evaluates (fuel : Nat) (ctx : Ctx) (isRec : Bool) (e : PyExpr) :
+    getEvalString ctx (PyW.ofPy e) = Format.fmtIter (fuel + 1) ctx isRec (.py e) := by
+  rw [py_evaluates]
+  unfold getEvalString
+  rw [evalPyW_ofPy]
+  cases evalPy ctx e <;> rfl
+
+/-- A name that the evaluation has not bound itself is the context key of that name … -/
+theorem py_name_is_context_key (ctx : Ctx) (n : String) (v : Val) (h : Ctx.get? ctx n = some v) :
+    getEvalString ctx (.name n) = .ok v := by
+  simp [getEvalString, evalPyW, lookupName_nil, h]
+
+/-- … and a name that is not a context key raises NameError — whatever earlier evaluations bound
+    (`getEvalString` has no other argument through which they could matter). -/
+theorem py_missing_name_is_NameError (ctx : Ctx) (n : String) (h : Ctx.get? ctx n = none) :
+    getEvalString ctx (.name n) = .error (nameError n) := by
+  simp [getEvalString, evalPyW, lookupName_nil, h]
+
+/-- An assignment expression has the value of its operand and binds the name for the REST of the
+    same evaluation: a later read of `x` in the same expression sees it, also when `x` is a
+    context key (locals are consulted before the context). -/
+theorem walrus_binds_within_the_evaluation (ctx : Ctx) (s s1 : Scratch) (x : String) (a : PyW) (v : Val)
+    (h : evalPyW ctx s a = .ok (v, s1)) :
+    evalPyW ctx s (.walrus x a) = .ok (v, Ctx.set s1 x v) ∧
+    evalPyW ctx (Ctx.set s1 x v) (.name x) = .ok (v, Ctx.set s1 x v) := by
+  constructor
+  · simp [evalPyW, h]
+  · simp [evalPyW, lookupName, ctx_get_set_same]
+
+/-- An assignment expression to `x` does not disturb reads of other names. -/
+theorem walrus_leaves_other_names (ctx : Ctx) (s : Scratch) (x y : String) (v : Val) (hxy : x ≠ y) :
+    lookupName ctx (Ctx.set s x v) y = lookupName ctx s y := by
+  simp [lookupName, ctx_get_set_other _ _ _ _ hxy]
+
+/-- An evaluation without assignment expressions binds nothing. -/
+theorem no_walrus_binds_nothing (ctx : Ctx) (e : PyW) (h : e.hasWalrus = false) (s s' : Scratch) (v : Val)
+    (hv : evalPyW ctx s e = .ok (v, s')) : s' = s :=
+  evalPyW_noWalrus_scratch ctx e h s v s' hv
+
+/-- **Sessions.** Splitting a session anywhere: the calls after the split give exactly the results
+    they give as a session of their own on the context as updated by the `set`/`del` calls before
+    the split — the formatting calls before it (with or without assignment expressions, opaque or
+    not) leave nothing behind. For all sessions, contexts, fuel. -/
+theorem session_split (fuel : Nat) (ctx : Ctx) (pre rest : List Call) :
+    runCalls fuel ctx (pre ++ rest) = runCalls fuel ctx pre ++ runCalls fuel (ctxAfter ctx pre) rest := by
+  induction pre generalizing ctx with
+  | nil => rfl
+  | cons c cs ih =>
+    cases c <;> simp [runCalls, ctxAfter, ih]
+
+/-- Formatting calls do not change the context that later calls see. -/
+theorem eval_calls_keep_context (ctx : Ctx) (pre : List Call) (h : pre.all Call.isEval = true) :
+    ctxAfter ctx pre = ctx := by
+  induction pre with
+  | nil => rfl
+  | cons c cs ih =>
+    simp only [List.all_cons, Bool.and_eq_true] at h
+    cases c <;> simp_all [ctxAfter, Call.isEval]
+
+/-- **No leak between evaluations.** After any number of formatting calls on a context — among them
+    `!py` strings with assignment expressions to any names — a `!py` expression evaluates to what it
+    evaluates to on that context alone, and a formatted value likewise. -/
+theorem earlier_calls_do_not_matter (fuel : Nat) (ctx : Ctx) (pre : List Call) (c : Call)
+    (h : pre.all Call.isEval = true) :
+    runCalls fuel ctx (pre ++ [c]) = runCalls fuel ctx pre ++ runCalls fuel ctx [c] := by
+  rw [session_split, eval_calls_keep_context ctx pre h]
+
+/-- hypotheses satisfiable, non-trivially: `!py (limit := 10) + 1`, then `!py limit * 2` and
+    `'{limit}'` with `limit = 3` in context, then with `limit` removed. -/
+example : runCalls 8 [("limit", .int 3), ("items", .list [.int 3, .int 8])]
+    [.py (.binop .add (.walrus "limit" (.const (.int 10))) (.const (.int 1))),
+     .py (.binop .mul (.name "limit") (.const (.int 2))),
+     .fmt (.str "{limit}"),
+     .py (.binop .add (.walrus "n" (.len (.name "items"))) (.name "n")),
+     .py (.name "n"),
+     .del "limit",
+     .py (.name "limit"),
+     .fmt (.str "{limit}")] =
+    [some (.ok (.int 11)), some (.ok (.int 6)), some (.ok (.int 3)), some (.ok (.int 4)),
+     some (.error (nameError "n")), none, some (.error (nameError "limit")),
+     some (.error (keyNotInContext "limit"))] := by rfl
+
+example : getEvalString [("x", .int 5)] (.binop .add (.name "x") (.binop .add (.walrus "x" (.const (.int 1))) (.name "x")))
+    = .ok (.int 7) := by rfl
+
+example : getEvalString [] (.binop .and (.const (.bool false)) (.walrus "x" (.const (.int 1)))) = .ok (.bool false) ∧
+    getEvalString [] (.binop .add (.binop .and (.const (.bool false)) (.walrus "x" (.const (.int 1)))) (.name "x"))
+      = .error (nameError "x") := by
+  constructor <;> rfl
 
 end Pypyr.C08
